@@ -90,6 +90,37 @@ func runC11(cfg *config, res *monitor.Result) {
 	var targets []target
 	targets = append(targets, cfg.targets(true)...)
 	targets = append(targets, cfg.targets(false)...)
+	// first contact: for half of the types (chosen by the seed) the very first value csproto sees in this process is a
+	// typed nil pointer, as when a caller passes an unset sub-message on to Clone, Equal or Size. What these calls
+	// return is not judged; the classification of the type, and everything that depends on it, is judged below with
+	// ordinary values.
+	for _, t := range targets {
+		r := monitor.NewRand(cfg.seed, "c11-first-contact", t.pkg.GoPkg, string(t.md.FullName()))
+		if !r.Bool() {
+			continue
+		}
+		typedNil := reflect.Zero(reflect.TypeOf(t.pkg.New(t.md.FullName()))).Interface()
+		fn := []string{"MsgType", "Clone", "Equal", "Size", "MarshalText"}[r.Intn(5)]
+		_ = monitor.Try(func() {
+			switch fn {
+			case "MsgType":
+				_ = csproto.MsgType(typedNil)
+			case "Clone":
+				_ = csproto.Clone(typedNil)
+			case "Equal":
+				_ = csproto.Equal(typedNil, typedNil)
+			case "Size":
+				_ = csproto.Size(typedNil)
+			default:
+				_, _ = csproto.MarshalText(typedNil)
+			}
+		})
+		kind := "plain"
+		if t.pkg.Fast {
+			kind = "fast"
+		}
+		classes["first-contact/typed-nil/"+t.pkg.Flavour+"/"+kind+"/"+fn]++
+	}
 	for _, t := range targets {
 		ops := opsFor(t.pkg.Flavour)
 		kind := "plain"
